@@ -882,6 +882,7 @@ impl<'r, 'a> Th<'r, 'a> {
                 Leaf::PR(x) => self.run_api(x, ctx),
                 Leaf::PPM(x) => self.run_api(x, ctx),
                 Leaf::PPR(x) => self.run_api(x, ctx),
+                Leaf::ZM(_) | Leaf::ZR(_) => self.st.s().report(Clause::Harness, "a (empty collection, lock) pair was generated as a stand-alone target".into()),
             },
             Node::Unit(u) => self.run_api(*u, ctx),
             Node::Boxed(c) => self.run_api(c, ctx),
@@ -1454,6 +1455,8 @@ fn probe_try(leaf: &Leaf, key: ThreadKey) -> Result<ThreadKey, ThreadKey> {
         Leaf::PR(x) => go(x, key),
         Leaf::PPM(x) => go(x, key),
         Leaf::PPR(x) => go(x, key),
+        Leaf::ZM(x) => go(&x.1, key),
+        Leaf::ZR(x) => go(&x.1, key),
     }
 }
 
@@ -1468,6 +1471,8 @@ fn probe_lock(leaf: &Leaf, key: ThreadKey) -> ThreadKey {
         Leaf::PR(x) => go(x, key),
         Leaf::PPM(x) => go(x, key),
         Leaf::PPR(x) => go(x, key),
+        Leaf::ZM(x) => go(&x.1, key),
+        Leaf::ZR(x) => go(&x.1, key),
     }
 }
 
